@@ -84,15 +84,51 @@ package files
 //@   ensures bytes: (length > 0 && offset + length <= v.size) ==> result == ssub(rdData(v), offset, offset + length)
 //@   ensures none: !(length > 0 && offset + length <= v.size) ==> result == ""
 
-// ---- the -files argument (C18: a function that parses a string prints nothing) ----
-//@ func ParsePath [C18]
-//@   effects nocomp stdout
-//@   trusted
+// ---- the -files argument (C18: a function that parses a string prints nothing; C20) ----
+// ParsePath: one entry per /-separated segment, in order (after a root entry for a leading /);
+// the last segment is a file pattern, the others directory patterns, "wildcard" iff it has a *.
+//@ pred entryFor(e PathEntry, text Str, last Bool) := e.value == text && e.entryType == (last ? (hasRune(text, '*') ? WildcardFile : File) : (hasRune(text, '*') ? WildcardDirectory : Directory))
+//@ func ParsePath [C18 C20]
+//@   effects nocomp stdout [C18]
+//@   noframe
 //@   modifies *
-//@ func (*Path).GetFileList [C18]
-//@   effects nocomp stdout
-//@   trusted
-//@   modifies *
+//@   requires len(path) > 0 [C20]
+//@   nopanic [C20]
+//@   let rooted := len(path) > 0 && sat(path, 0) == '/'
+//@   let rest := rooted ? ssub(path, 1, len(path)) : path
+//@   let off := rooted ? 1 : 0
+//@   ensures shape: result != nil && len(result.entries) == off + segCount(rest, "/") [C20]
+//@   ensures root: rooted ==> result.entries[0].value == "/" && result.entries[0].entryType == Directory [C20]
+//@   ensures segments: forall j :: { result.entries[j + off] } 0 <= j && j < segCount(rest, "/") ==> entryFor(result.entries[j + off], seg(rest, "/", j), j == segCount(rest, "/") - 1) [C20]
+//@   loop 1 invariant len(entries) == off + rangeindex + 1 && rangeindex < len(splitPath) && len(splitPath) == segCount(rest, "/") && path == rest [C20]
+//@   loop 1 invariant rooted ==> entries[0].value == "/" && entries[0].entryType == Directory [C20]
+//@   loop 1 invariant forall j :: { entries[j + off] } 0 <= j && j <= rangeindex ==> entryFor(entries[j + off], seg(rest, "/", j), j == segCount(rest, "/") - 1) [C20]
+//@   loop 1 invariant forall j :: { splitPath[j] } 0 <= j && j < len(splitPath) ==> splitPath[j] == seg(rest, "/", j) [C20]
+
+// GetFileList, last segment: exactly the entries of the directory that are not directories and
+// whose name matches the pattern, each once, in listing order, as <dir>/<name>.
+//@ pred selected(e Iface, pat Str) := !deIsDir(e) && glob(deName(e), pat)
+//@ func (*Path).GetFileList [C18 C20]
+//@   effects nocomp stdout [C18]
+//@   modifies inferred
+//@   requires path != nil && len(path.entries) >= 1 [C20]
+//@   nopanic [C20]
+//@   let pat := path.entries[0].value
+//@   let nent := len(path.entries)
+//@   ensures leaf: nent == 1 && defined(E) ==> len(result) == select(N, len(E)) && select(N, 0) == 0 && (forall k :: { E[k] } 0 <= k && k < len(E) ==> (selected(E[k], pat) ? (select(N, k + 1) == select(N, k) + 1 && result[select(N, k)] == currentDirectory ++ "/" ++ deName(E[k])) : select(N, k + 1) == select(N, k))) [C20]
+//@   ensures unreadable: nent == 1 && !defined(E) ==> len(result) == 0 [C20]
+//@   loop 1 ghost E []os.DirEntry := entries ;; E
+//@   loop 1 ghost N (Array Int Int) := store(N, 0, 0) ;; store(N, rangeindex + 1, len(results))
+//@   loop 1 invariant E == entries && nent == 1 && len(path.entries) == 1 && path.entries[0].value == pat && rangeindex < len(entries) && (forall j :: { entries[j] } 0 <= j && j < len(entries) ==> entries[j] != nil) [C20]
+//@   loop 1 invariant select(N, rangeindex + 1) == len(results) && select(N, 0) == 0 && (forall k :: { E[k] } 0 <= k && k <= rangeindex ==> (selected(E[k], pat) ? (select(N, k + 1) == select(N, k) + 1 && results[select(N, k)] == currentDirectory ++ "/" ++ deName(E[k])) : select(N, k + 1) == select(N, k))) [C20]
+//@   loop 1 invariant forall k :: { select(N, k) } 0 <= k && k <= rangeindex + 1 ==> 0 <= select(N, k) && select(N, k) <= len(results) [C20]
+//@   loop 2 invariant path != nil && len(path.entries) >= 2 && (forall j :: { entries[j] } 0 <= j && j < len(entries) ==> entries[j] != nil) [C20]
+//@ func directoryExists [C20]
+//@   requires forall j :: { entries[j] } 0 <= j && j < len(entries) ==> entries[j] != nil
+//@   loop 1 invariant forall j :: { entries[j] } 0 <= j && j < len(entries) ==> entries[j] != nil
+//@ func (*Path).shrink [C20]
+//@   requires path != nil && len(path.entries) >= 1
+//@   ensures result != nil && fresh(result) && len(result.entries) == len(path.entries) - 1
 
 // ---- writers (C06): a file-backed writer appends to the file named by its handle ----
 //@ pred wIsFile(w *Writer) := w.contents is *os.File
@@ -142,8 +178,8 @@ package files
 // glob(t, p): the whole of t matches p, where * stands for any run of characters (also none)
 //@ specfunc glob(Str, Str) Bool
 //@ pred stail(s Str) := ssub(s, 1, len(s))
-//@ axiom glob_empty: forall t Str, p Str :: { glob(t, p) } len(p) == 0 ==> glob(t, p) == (len(t) == 0)
-//@ axiom glob_star: forall t Str, p Str :: { glob(t, p) } len(p) > 0 && sat(p, 0) == '*' ==> glob(t, p) == (glob(t, stail(p)) || (len(t) > 0 && glob(stail(t), p)))
-//@ axiom glob_char: forall t Str, p Str :: { glob(t, p) } len(p) > 0 && sat(p, 0) != '*' ==> glob(t, p) == (len(t) > 0 && sat(t, 0) == sat(p, 0) && glob(stail(t), stail(p)))
+//@ axiom glob_empty@files.pathMatches: forall t Str, p Str :: { glob(t, p) } len(p) == 0 ==> glob(t, p) == (len(t) == 0)
+//@ axiom glob_star@files.pathMatches: forall t Str, p Str :: { glob(t, p) } len(p) > 0 && sat(p, 0) == '*' ==> glob(t, p) == (glob(t, stail(p)) || (len(t) > 0 && glob(stail(t), p)))
+//@ axiom glob_char@files.pathMatches: forall t Str, p Str :: { glob(t, p) } len(p) > 0 && sat(p, 0) != '*' ==> glob(t, p) == (len(t) > 0 && sat(t, 0) == sat(p, 0) && glob(stail(t), stail(p)))
 //@ func pathMatches [C20]
 //@   ensures exact: result == glob(target, matches)
